@@ -450,6 +450,7 @@ func vfGossipHistory(t *testing.T, rng *rand.Rand, nops int, style int) (lit str
 		}
 		var forcedOps []int
 		scripted := false
+		forcedTp, forcedAdv := -1, time.Duration(0)
 		forcedPeer := -1 // the peer every scripted operation is about (-1: random)
 		pickP := func() int {
 			if forcedPeer >= 0 && scripted {
@@ -497,6 +498,12 @@ func vfGossipHistory(t *testing.T, rng *rand.Rand, nops int, style int) (lit str
 					forcedOps = append(forcedOps, 0)
 				}
 				forcedOps = append(forcedOps, 90)
+			}
+			// style 5: right at the start (nothing is joined yet), the node publishes to a topic it has not joined again and again,
+			// more than half a fanout TTL apart, with heartbeats in between: the fanout lives on as long as it is published to
+			if style == 5 && i == 0 {
+				forcedTp, forcedAdv = 0, P.FanoutTTL*6/10
+				forcedOps = append(forcedOps, 0, 0, 0, 0, 40, 95, 90, 40, 95, 90, 40, 95, 90, 40)
 			}
 			// style 4: half way through, one peer spends its IHAVE and IDONTWANT allowances of this heartbeat, leaves, comes back
 			// and goes on advertising before any heartbeat has passed: the allowances belong to the heartbeat, not to the stream
@@ -642,6 +649,9 @@ func vfGossipHistory(t *testing.T, rng *rand.Rand, nops int, style int) (lit str
 				}
 			case r < 47: // local publish
 				tp := rng.Intn(ntopics)
+				if scripted && forcedTp >= 0 {
+					tp = forcedTp
+				}
 				id := n.nextMid
 				n.nextMid++
 				size := 5 + rng.Intn(50)
@@ -910,6 +920,9 @@ func vfGossipHistory(t *testing.T, rng *rand.Rand, nops int, style int) (lit str
 				emit(fmt.Sprintf("GHeartbeat [%s] [%s] [%s]", strings.Join(obs, "; "), strings.Join(fobs, "; "), strings.Join(gobs, "; ")), sc)
 			default:
 				d := time.Duration(1+rng.Intn(4)) * time.Second
+				if scripted && forcedAdv > 0 {
+					d = forcedAdv
+				}
 				time.Sleep(d)
 				emit(fmt.Sprintf("GCore (OAdvance (%d)%%Z)", d.Nanoseconds()), sc)
 			}
@@ -1012,6 +1025,9 @@ func TestVF_Gossip(t *testing.T) {
 		if c%10 == 7 {
 			style = 3 // every peer leaves, quiet heartbeats, new peers
 		}
+		if c%10 == 5 {
+			style = 5 // repeated publications to a topic that is not joined, across more than the fanout TTL
+		}
 		if c%10 == 3 {
 			style = 4 // a peer spends its per-heartbeat allowances, reconnects and goes on inside the same heartbeat
 		}
@@ -1038,9 +1054,99 @@ func TestVF_Gossip(t *testing.T) {
 			os.WriteFile(filepath.Join(vfOutDir(t), "violation_gossip_copy.json"), js, 0o644)
 		}
 	}
+	// the only-if direction of the promise penalty under slow validation (the gossip histories have no validators)
+	if v := vfSlowValidationPromise(t); v != nil {
+		js, _ := json.MarshalIndent(v, "", " ")
+		os.WriteFile(filepath.Join(vfOutDir(t), "violation_gossip_promise.json"), js, 0o644)
+	}
+	cs.extra["slow_validation_promise_scenarios"] = 2
 	cs.extra["copies_compared_bytewise"] = true
 	cs.extra["histories_with_json_and_pb_trace_files_compared"] = nFiles
 	cs.extra["trace_file_events_compared"] = nFileEvents
 	cs.flush("random gossip-level router histories on a real gossipsub node with a parked heartbeat: the router alphabet (peers of every protocol version, subscriptions, Subscribe/Cancel through the API, direct peers, remote GRAFT/PRUNE, virtual time) plus local publishes to joined and non-joined topics (fanout), messages from peers with and without an author, duplicates, IHAVE (seen and unseen ids, over-long lists), IWANT (repeated, unknown ids), IDONTWANT, heartbeats (also while the node has no peer at all); integer scores crossing the graylist / publish / gossip thresholds and zero; with and without flood publishing; after EVERY operation every RPC queued for every fake peer, the penalty deltas and a snapshot of mesh / fanout / backoff / unwanted / message-cache contents are compared with the model. " +
 		"non-trivial = at least one IHAVE emitted and one message copy sent; distinct = hash of the history")
+}
+
+// vfSlowValidationPromise: a peer advertises an id, the node asks for it, the peer sends the message at once, and an asynchronous
+// validator holds it for twice the follow-up time while heartbeats run: the message DID arrive within the follow-up time, so no
+// broken-promise penalty may be charged (once with the holding validator, once without as a control that the request was made).
+func vfSlowValidationPromise(t *testing.T) (viol map[string]any) {
+	for _, hold := range []bool{true, false} {
+		synctest.Test(t, func(t *testing.T) {
+			ctx, cancel := context.WithCancel(context.Background())
+			defer cancel()
+			P := vfRParams{D: 3, Dlo: 2, Dhi: 4, Dscore: 1, Dout: 0, OGTicks: 60, OGPeers: 1, PruneBackoff: 30 * time.Second, UnsubBackoff: 10 * time.Second, GraftFlood: 5 * time.Second, FanoutTTL: 30 * time.Second}
+			rn := vfNewRouterNode(t, ctx, P, 2, WithMessageIdFn(vfMsgID), func(ps *PubSub) error {
+				ps.rt.(*GossipSubRouter).params.IWantFollowupTime = 3 * time.Second
+				return nil
+			})
+			gate := make(chan struct{})
+			if err := rn.ps.RegisterTopicValidator(vfTopic(0), func(ctx context.Context, _ peer.ID, _ *Message) ValidationResult {
+				if hold {
+					select {
+					case <-gate:
+					case <-ctx.Done():
+					}
+				}
+				return ValidationAccept
+			}, WithValidatorTimeout(time.Hour)); err != nil {
+				t.Fatal(err)
+			}
+			tp, err := rn.ps.Join(vfTopic(0))
+			if err != nil {
+				t.Fatal(err)
+			}
+			sub, err := tp.Subscribe()
+			if err != nil {
+				t.Fatal(err)
+			}
+			rn.addPeer(0, GossipSubID_v11, false)
+			ts := vfTopic(0)
+			sv := true
+			rn.recv(0, &pb.RPC{Subscriptions: []*pb.RPC_SubOpts{{Subscribe: &sv, Topicid: &ts}}})
+			id := "7001"
+			rn.recv(0, &pb.RPC{Control: &pb.ControlMessage{Ihave: []*pb.ControlIHave{{TopicID: &ts, MessageIDs: []string{id}}}}})
+			_, rpcs := rn.drain()
+			asked := false
+			for _, r := range rpcs[0] {
+				if r.Control != nil {
+					for _, w := range r.Control.Iwant {
+						for _, x := range w.MessageIDs {
+							if x == id {
+								asked = true
+							}
+						}
+					}
+				}
+			}
+			// the message arrives 30 ms after the request
+			time.Sleep(30 * time.Millisecond)
+			rn.recv(0, &pb.RPC{Publish: []*pb.Message{{Data: []byte(id + ":late-validation"), Topic: &ts}}})
+			synctest.Wait()
+			for k := 0; k < 6; k++ {
+				time.Sleep(time.Second)
+				vfEval(rn.ps, func() { rn.gs.heartbeat() })
+			}
+			close(gate)
+			synctest.Wait()
+			vfEval(rn.ps, func() { rn.gs.heartbeat() })
+			pen := 0.0
+			vfEval(rn.ps, func() {
+				if st, ok := rn.gs.score.peerStats[rn.pids[0]]; ok {
+					pen = st.behaviourPenalty
+				}
+			})
+			if viol == nil && asked && pen > 0 {
+				viol = map[string]any{"property": "C17", "code": 1701, "key": "promise-penalty-although-message-arrived",
+					"what": fmt.Sprintf("the peer answered the IWANT 30 ms after it was sent (follow-up time 3 s); the message was %s; after 6 heartbeats the peer carries a behaviour penalty of %v for a broken promise", map[bool]string{true: "held by an asynchronous validator for 6 s", false: "validated at once"}[hold], pen)}
+			}
+			if viol == nil && !asked {
+				t.Log("the node did not request the advertised id (scenario is vacuous)")
+			}
+			sub.Cancel()
+			cancel()
+			synctest.Wait()
+		})
+	}
+	return
 }
